@@ -421,8 +421,10 @@ class MinErrorFlow():
                 # edge_subset = edge_subset[:30]        
 
                 # Getting all the different 'flow_attr' values in the corrected graph
+                # (we read them from the solution values of the edges of the internal graph, because with
+                # flow_attr_origin == "node" the corrected graph is the condensed graph, which does not have these edges)
                 ub_different_flow_values = len(set(
-                    corrected_graph[u][v].get(self.flow_attr, 0)
+                    self.edge_sol.get((u, v), 0)
                     for (u, v) in edge_subset
                 ))
 
